@@ -400,6 +400,32 @@ fn main() {
             },
         ));
     }
+    // the mirrored exponent range: x in [0.5, 5), y in -[0.5, 5) (x^-y = 1/x^y: the same |y ln x| as the stated range; larger
+    // integer exponents are not judged: there the unchanged implementation itself exceeds 5 encodings)
+    {
+        let (lo, hi) = (0x3800_0000u32, 0x5200_0000u32);
+        let g: u64 = if t { 4096 } else { 1024 };
+        let step = ((hi - lo) as u64 / g) as u32;
+        let (r2, a2) = (res.clone(), amb.clone());
+        cells.push(CellDef::new("C15", "P32E2/powf#negexp", Space::func(g * g, format!("{g} x {g} grid: x in [0.5, 5), y in -[0.5, 5)"), move |i| {
+            let x = lo + (i / g) as u32 * step;
+            let y = (lo + (i % g) as u32 * step + 1).wrapping_neg();
+            (x as u128) << 32 | y as u128
+        }), move |k| {
+            let (x, y) = k2(k);
+            let (px, py) = (P32E2::from_bits(x), P32E2::from_bits(y));
+            let yv = px.to_f64().powf(py.to_f64());
+            match guard(|| px.powf(py).to_bits()) {
+                None => Out::cmp(None, 0, true),
+                Some(gb) => {
+                    let before = r2.asked.load(Ordering::Relaxed);
+                    let (ok, want) = judge(&r2, "powf", 5, gb, yv, x, Some(y));
+                    if r2.asked.load(Ordering::Relaxed) != before { a2.fetch_add(1, Ordering::Relaxed); }
+                    Out { ok, nt: true, got: gb as u128, want: want as u128, ops: 1, panicked: false }
+                }
+            }
+        }));
+    }
     // powf outside the positive quadrant: what the property fixes without an accuracy debate.
     //  * a negative base with a non-integer exponent is outside the real domain: NaR;
     //  * a negative base with an integer exponent n has the sign (-1)^n, is real and non-zero; only bases with |x| >= 1 and
